@@ -51,12 +51,15 @@ def check(case):
     targets = ["car", "pedestrian", "bicycle"]
     mgr, ev = manager("detection", targets)
     frames_gt = []
+    # objects given in the ego frame or (same scene) in the map frame with the frame's ego pose: the evaluation then looks transforms up in the frame's registry
+    in_map = case.get("frame") == "map"
+    place = lambda d, f: dict(d, frame="map", x=d["x"] + (f.get("ego") or {}).get("x", 0.0), y=d["y"] + (f.get("ego") or {}).get("y", 0.0)) if in_map else d
     for fi, f in enumerate(case["frames"]):
-        frames_gt.append(FrameGroundTruth(fi * 100000, str(fi), [build.obj3d(d) for d in f["gt"]], transforms=build.ego_matrix(f.get("ego"))))
+        frames_gt.append(FrameGroundTruth(fi * 100000, str(fi), [build.obj3d(place(d, f)) for d in f["gt"]], transforms=build.ego_matrix(f.get("ego"))))
     mgr.ground_truth_frames = frames_gt
     snapshot = [(f.objects, list(f.objects)) for f in frames_gt]
     from perception_eval.common.schema import FrameID
-    pose = lambda f: f.transforms[(FrameID.BASE_LINK, FrameID.MAP)].matrix.copy().tolist()
+    pose = lambda f: (f.transforms[(FrameID.BASE_LINK, FrameID.MAP)].matrix.copy().tolist(), sorted(str(k.src) + "->" + str(k.dst) for k in f.transforms.keys()))
     poses = [(pose(f), f.unix_time, [(tuple(o.state.position), tuple(o.state.orientation.elements), o.unix_time) for o in f.objects]) for f in frames_gt]
     first = {}
     for step, (fi, half) in enumerate(case["calls"]):
@@ -73,10 +76,12 @@ def check(case):
             if now != poses:
                 k = next(i for i, (a, b) in enumerate(zip(now, poses)) if a != b)
                 return f"a ground-truth lookup before call {step} changed the loaded frame {k} (ego pose, stamp or an object's pose)"
-        est = [build.obj3d(d) for d in case["frames"][fi]["est"]]
+        est = [build.obj3d(place(d, case["frames"][fi])) for d in case["frames"][fi]["est"]]
         est0 = list(est)
         cof, pfc = crit_cfg(ev, targets, half)
         fr = mgr.add_frame_result(fi * 100000, frames_gt[fi], est, cof, pfc)
+        if case.get("lookups") and [(pose(f), f.unix_time) for f in frames_gt] != [(p, t) for p, t, _ in poses]:
+            return f"call {step} (frame {fi}) changed the transform registry or the stamp of a loaded frame"
         if est != est0 or any(a is not b for a, b in zip(est, est0)):
             return f"call {step}: the caller's estimate list was modified"
         for (lst, items), f in zip(snapshot, frames_gt):
@@ -128,7 +133,7 @@ def gen(rnd):
     calls.append(calls[0])
     stamps = [0, 50000, 100000, 140000, 150000, 260000]
     lookups = [[(rnd.choice(stamps), rnd.random() < 0.7) for _ in range(rnd.randint(0, 2))] for _ in range(3)]
-    return dict(frames=fs, calls=calls, lookups=lookups)
+    return dict(frames=fs, calls=calls, lookups=lookups, frame=rnd.choice(["base_link", "map"]))
 
 
 def search(item, seed):
